@@ -291,6 +291,10 @@ FAMILIES["arrmeth"] = {
              "start": r"^[ \t]*let mut is_sorted_up = true;", "end": r"^[ \t]*arr\n[ \t]*\}",
              "sig": "pub fn recompute_marks_after_load<T: ArrayValue>(arr: &mut Array<T>)"},
         ]},
+        {"items": [
+            {"kind": "arm", "name": "memberof_range byte arm", "file": "src/algorithm/dyadic/mod.rs", "impl": r"^impl Value \{", "fn": "memberof_range",
+             "arm": r"Value::Byte\(mut bytes\)", "sig": "pub fn memberof_range_byte_arm(mut bytes: Array<u8>, range_bound: f64) -> Array<u8>"},
+        ]},
         {"wrap": "impl<T: ArrayValue> Array<T>", "items": [
             {"kind": "fn", "name": "Array::row_slice", "file": "src/array.rs", "impl": r"^impl<T> Array<T> \{", "fn": "row_slice"},
             {"kind": "fn", "name": "Array::validate", "file": "src/array.rs", "impl": r"^impl<T: ArrayValue> Array<T> \{", "fn": "validate"},
